@@ -40,7 +40,7 @@ def check(run):
     run.build()
     shards = 16
     traces = run.drive('TestDriveC04', shards,
-                       lambda i: dict(VERIF_SEED=run.seed * 1000 + i, VERIF_N=run.pick(4, 120), VERIF_LEN=run.pick(1500, 40000)),
+                       lambda i: dict(VERIF_SEED=run.seed * 1000 + i, VERIF_N=run.pick(4, 40), VERIF_LEN=run.pick(1500, 8000)),
                        'c04', timeout=3000)
     run.sample_from(traces[0], 3)
     run.validate('Trace_Controller', ctlfam.trace_cfg(INV, PROP), traces, 'tv', timeout=3000)
